@@ -145,6 +145,43 @@ class Ackermann:
         return cons
 
 
+def linear_abstraction(formulas):
+    """Over-approximation: every uninterpreted-function application, every product of two non-numeral factors and every division by a
+    non-numeral becomes a fresh constant (the same term always the same constant).  `unsat` of the abstraction implies `unsat` of the
+    original; a `sat` is only a candidate and must be confirmed by replay."""
+    memo = {}
+
+    def is_num(t):
+        return z3.is_rational_value(t) or z3.is_int_value(t) or z3.is_algebraic_value(t)
+
+    def walk(t):
+        k = t.get_id()
+        r = memo.get(k)
+        if r is not None:
+            return r
+        if not z3.is_app(t) or t.num_args() == 0:
+            memo[k] = t
+            return t
+        d = t.decl()
+        kind = d.kind()
+        opaque = False
+        if kind == z3.Z3_OP_UNINTERPRETED:
+            opaque = True
+        elif kind == z3.Z3_OP_MUL:
+            opaque = sum(1 for c in t.children() if not is_num(c)) >= 2
+        elif kind in (z3.Z3_OP_DIV, z3.Z3_OP_IDIV, z3.Z3_OP_MOD, z3.Z3_OP_REM) and not is_num(t.arg(1)):
+            opaque = True
+        elif kind == z3.Z3_OP_POWER:
+            opaque = True
+        if opaque and (z3.is_arith(t) or z3.is_bool(t)):
+            r = z3.FreshConst(t.sort(), "lin")
+        else:
+            r = d(*[walk(c) for c in t.children()])
+        memo[k] = r
+        return r
+    return [walk(f) if isinstance(f, z3.ExprRef) else f for f in formulas]
+
+
 class Result:
     def __init__(self, status, model, t, solver_name, ack=None, reason=""):
         self.status = status
